@@ -1,6 +1,7 @@
 import FsModel.Driver
 import FsModel.DriverGrid
 import FsModel.Mst
+import FsModel.Spl
 
 /-! Scenario loop of `fsmodel`. -/
 namespace Fs.Driver
@@ -27,6 +28,35 @@ def callBgraph (c : Call) (st : St) : List String :=
       toString e.l0 ++ " " ++ toString e.l1 ++ " " ++ sgn e.p0 ++ " " ++ sgn e.p1 ++ " " ++ fHex e.pe ++ " " ++ fHex e.pl))),
     line "bg_tree" (joinNats bg.tree) ]
 
+/-- `spl`: the harness echoes every parameter in `I spl kind K… m n tol dt area… elev…` -/
+def callSpl (c : Call) (st : St) : List String :=
+  let n := st.topo.n
+  match findInp c "spl" with
+  | some (kind :: rest) =>
+    let nk := if kind == "s" then 1 else n
+    let ks := (rest.take nk).map hexF
+    let kcoef : Nat → F := if kind == "s" then fun _ => ks.headD 0.0 else fromList 0.0 ks
+    let r := (rest.drop nk).map hexF
+    let m := r.getD 0 0.0
+    let nn := r.getD 1 0.0
+    let tol := r.getD 2 0.0
+    let dt := r.getD 3 0.0
+    let area := fromList 0.0 ((r.drop 4).take n)
+    let elev := fromList 0.0 ((r.drop (4 + n)).take n)
+    let eps : F := Float.ofBits 0x3cb0000000000000
+    let linear := Fs.Spl.isLinear S Fs.Gen.splLinearForm eps nn
+    let single := st.g.recv 0 |>.length  -- unused; direction comes from the operator list
+    let _ := single
+    let isSingle := match Fs.OpSeq.build (st.ops.map flagsOf) with
+      | some acc => acc.outDir == .single
+      | none => true
+    if !linear && !isSingle then ["O spl err invalid_argument"]
+    else
+      let (ero, nc, hang) := Fs.Spl.erode S linear Fs.Gen.splNewtonTwoSided n st.g kcoef dt m nn tol area elev
+      if hang then ["O hang"]
+      else [ line "erosion" (joinF ero.toList), line "ncorr" (toString nc) ]
+  | _ => ["O model-bad-spl"]
+
 structure DSt where
   st : St := {}
   grid : GridSpec := .none
@@ -51,6 +81,7 @@ def runFlowOk (st : St) (c : Call) : St × List String :=
   | "acc" :: _ => (st, callAcc "" c st.topo.n st.g)
   | "basins" :: _ => (st, callBasins "" st.topo.n st.g st.mask st.isBase)
   | "bgraph" :: _ => (st, callBgraph c st)
+  | "spl" :: _ => (st, callSpl c st)
   | "snapcall" :: nm :: what :: rest =>
     let refused (k : Nat) (lbl : String) : List String :=
       -- a snapshot graph is read-only: the guard must be present in the mutator and the snapshot
